@@ -24,7 +24,7 @@ class C04(Property):
     assumptions = (
         "cycles are explored with equal start times (observation O1 in DESIGN.md)",
         "in-between budgets are unconstrained: they must end in success with clean monitors or exactly FinamCircularCouplingError",
-        "delay-to-pull adapters are not used for cycle budgets (their shift depends on the pull history)",
+        "delay-to-pull adapters resolve cycles only in a dedicated two-component class with constant steps (n * consumer step >= sum of both steps)",
     )
     cases = {"quick": 1200, "thorough": 150000}
     min_nontrivial = {"quick": 400, "thorough": 30000}
@@ -36,6 +36,8 @@ class C04(Property):
             return spec
         if i % 12 == 7:
             return gen_coupling.gen_ring(rnd, pull_prob=0.0, meta_cycle=True)
+        if i % 12 == 3:
+            return gen_coupling.gen_dpull_ring(rnd)
         return gen_coupling.gen_ring(rnd)
 
     def run(self, spec):
@@ -79,7 +81,7 @@ class C04(Property):
         return out
 
     def coverage_gaps(self, counters, tier):
-        need = ["class_none", "class_sufficient", "class_between", "class_acyclic", "class_meta_cycle", "circular_reported", "completed_clean",
+        need = ["class_none", "class_sufficient", "class_between", "class_acyclic", "class_meta_cycle", "class_dpull_ring", "circular_reported", "completed_clean",
                 "rings_with_pull_based_components"]
         return [f"{k} never observed" for k in need if not counters.get(k)]
 
